@@ -15,7 +15,8 @@ PY = "/venv/bin/python"
 IMPL = os.path.join(HERE, "impl.py")
 NPROC = int(os.environ.get("VERIF_JOBS", "16"))
 
-MODEL_ONLY_FIELDS = re.compile(r" (spec|kd|total|det|order|tree|f04)=\S+")
+MODEL_ONLY_FIELDS = re.compile(r" (spec|kd|total|det|order|tree|f04|ready)=\S+")
+IMPL_ONLY_FIELDS = re.compile(r" (shared)=\S+")
 HOOK_SERIALS = re.compile(r"#[0-9?]+\+?")
 MODEL_ONLY_CMDS = ("(sem ", "(seqsem ")
 
@@ -67,6 +68,7 @@ def run_side(side: str, programs: list[str], jobs: int = NPROC) -> list[list[str
 
 def normalise(line: str, order_any: bool = False) -> str:
     line = MODEL_ONLY_FIELDS.sub("", line)
+    line = IMPL_ONLY_FIELDS.sub("", line)
     if line.startswith("err "):
         line = re.sub(r" pulls_exec=\S+", "", line)      # diagnostic detail of the implementation side
     line = re.sub(r"SQLError:\w+", "SQLError", line)
